@@ -598,8 +598,13 @@ pub fn gen_v1_mutant(t: &mut Tape) -> (Vec<u8>, &'static str) {
         }
         13 => {
             label = "pad-length";
-            // UNKNOWN line padded to 106..=110 bytes
-            let total = t.usize_in(105, 111);
+            // UNKNOWN line padded to 105..=111 bytes, or far beyond (200..=700, around multiples of 256 in particular:
+            // quantities kept in a byte wrap there)
+            let total = match t.below(4) {
+                0 => *t.pick(&[256usize, 257, 258, 270, 300, 362, 363, 364, 512, 520, 600]),
+                1 => t.usize_in(200, 700),
+                _ => t.usize_in(105, 111),
+            };
             let mut line = b"PROXY UNKNOWN ".to_vec();
             while line.len() < total - 2 {
                 line.push(b'a' + (line.len() % 26) as u8);
@@ -966,8 +971,20 @@ pub fn gen_tlv_list(t: &mut Tape, room: usize) -> Vec<(u8, Vec<u8>)> {
         };
         let len = want.min(max);
         // content: random bytes mostly; all-zero / all-0xFF / ASCII / signature-like for one value in four
-        let value = if len <= 16 && t.chance(3, 4) { t.bytes(len) } else { fill(gen_seed(t), len) };
-        used += 3 + len;
+        let mut value = if len <= 16 && t.chance(3, 4) { t.bytes(len) } else { fill(gen_seed(t), len) };
+        // one value in ten is a string such TLVs carry in practice (protocol ids, TLS versions, host names), in the
+        // usual or in an unusual case, sometimes NUL-terminated
+        if t.chance(1, 10) {
+            let w = *t.pick(&["h2", "http/1.1", "HTTP/1.1", "H2", "h3", "h2c", "Http/1.0", "TLSv1.3", "tlsv1.2", "ECDHE-RSA-AES128-GCM-SHA256", "example.org", "EXAMPLE.ORG", "RSA2048", "sha256", "blue", "localhost"]);
+            value = w.as_bytes().to_vec();
+            if t.chance(1, 4) {
+                value.push(0);
+            }
+            if value.len() > max {
+                value.truncate(max);
+            }
+        }
+        used += 3 + value.len();
         out.push((kind, value));
     }
     out
@@ -1095,7 +1112,27 @@ pub fn gen_v2_mutant(t: &mut Tape) -> (Vec<u8>, &'static str) {
 pub fn gen_related(t: &mut Tape, x: &[u8]) -> Vec<u8> {
     let mut y = x.to_vec();
     let cr = y.iter().position(|&b| b == b'\r');
-    match t.below(12) {
+    match t.below(14) {
+        12 | 13 => {
+            // the same line without its ending (CRLF, LF or CR stripped), or cut right behind the CR
+            match t.below(3) {
+                0 => {
+                    while matches!(y.last(), Some(b'\r') | Some(b'\n')) {
+                        y.pop();
+                    }
+                }
+                1 => {
+                    if let Some(p) = cr {
+                        y.truncate(p);
+                    }
+                }
+                _ => {
+                    if let Some(p) = cr {
+                        y.truncate(p + 1);
+                    }
+                }
+            }
+        }
         0 => {}
         1 | 2 => {
             // one more digit at the end of the last field (just before the first CR, else at the very end)
